@@ -164,8 +164,8 @@ def run_case(mode, op, j, kind, tt, rt, total, seed, healthy=None, net='mem'):
     sess.close_loop()
     frames = dev.nframes - base_frames
     stalled = state['start'] is not None
-    elapsed = int(round((sess.clock.time() - state['start']) * 1000)) if stalled else 0
-    ms = lambda v: int(round(v * 1000))  # noqa
+    elapsed = min(2 ** 26, int(round((sess.clock.time() - state['start']) * 1000))) if stalled else 0
+    ms = lambda v: max(-2 ** 26, min(2 ** 26, int(round(v * 1000))))  # noqa   (TLC integers are 32-bit: very large times are capped, order preserved)
     uses_total = op in ('shell', 'exec_out', 'root', 'reboot') and total is not None
     val = repr(o.value) if o.kind == 'ret' else None
     ev = dict(ev='end', op=op, hang=bool(hang), stalled=bool(stalled), elapsed=elapsed, k=12 if op.startswith('pull') else 6,
@@ -206,8 +206,8 @@ def body(ctx):
             ktight = 3
     ctx.extra['tightest_K_in_design_model'] = ktight
     # 2. real code
-    grid_t = [None, -1, 0, 0.5, 2]
-    grid_r = [-1, 0, 1, 3]
+    grid_t = [None, -1, 0, 0.5, 2, 1e-6, 1e9]          # also: next to nothing, and practically for ever (time arithmetic with very large values)
+    grid_r = [-1, 0, 1, 3, 1e-6]          # (a read timeout of 1e9 s is honoured by waiting: the call budget of the harness ends first, not the library)
     grid_total = [None, -1, 0, 2]
     kinds = ['raise', 'empty', 'trickle', 'foreign', 'unexpected', 'trickle_huge', 'huge_then_empty']
     traces, meta = [], []
